@@ -1,1 +1,6 @@
-
+//! Simulation layer of the harness: plan-driven in-memory transport, recording adapters, the
+//! scripted reference client and the counting allocator.
+pub mod allocmon;
+pub mod client;
+pub mod recadapters;
+pub mod simnet;
